@@ -23,7 +23,6 @@ import (
 	"errors"
 	"fmt"
 	"io"
-	"regexp"
 	"sort"
 	"syscall"
 	"time"
@@ -750,7 +749,19 @@ func errName(err error) string {
 	return "SOther"
 }
 
-func digestTerm(h string, s int64) string { return "(" + g.Str(h) + ", " + g.Z(s) + ")" }
+// hashTerm prints a hash; the 32 hex digits of a small number are written
+// as (H32 n), which Corr.v expands (coqc spends its time on literals).
+func hashTerm(h string) string {
+	var v uint64
+	if len(h) == 32 {
+		if _, err := fmt.Sscanf(h, "%x", &v); err == nil && fmt.Sprintf("%032x", v) == h {
+			return g.App("H32", g.N(v))
+		}
+	}
+	return g.Str(h)
+}
+
+func digestTerm(h string, s int64) string { return "(" + hashTerm(h) + ", " + g.Z(s) + ")" }
 
 func pdigestTerm(d *jdigest) string {
 	if d == nil {
@@ -877,39 +888,6 @@ func call(f func()) string {
 	case <-time.After(10 * time.Second):
 		return "SHang"
 	}
-}
-
-// intern binds every digest and every longer string literal of a case term
-// once (let ... in): coqc spends its time type checking literals, not in
-// vm_compute.
-var (
-	digestLiteral = regexp.MustCompile(`\("[0-9a-zA-Z]*"%string, \(?-?[0-9]+\)?%Z\)`)
-	stringLiteral = regexp.MustCompile(`"[^"]{6,}"%string`)
-)
-
-func intern(term string) string {
-	var lets []string
-	pass := func(re *regexp.Regexp, prefix string) {
-		names := map[string]string{}
-		term = re.ReplaceAllStringFunc(term, func(lit string) string {
-			if n, ok := names[lit]; ok {
-				return n
-			}
-			n := fmt.Sprintf("%s%d", prefix, len(names))
-			names[lit] = n
-			lets = append(lets, "let "+n+" := "+lit+" in ")
-			return n
-		})
-	}
-	pass(digestLiteral, "dg")
-	pass(stringLiteral, "str")
-	// digests are bound first but may mention interned strings: bind strings first
-	sort.SliceStable(lets, func(i, j int) bool { return lets[i][4] == 's' && lets[j][4] != 's' })
-	out := "("
-	for _, l := range lets {
-		out += l
-	}
-	return out + term + ")"
 }
 
 // ---- execution -------------------------------------------------------------
@@ -1254,7 +1232,7 @@ func (area) Execute(raw json.RawMessage) (term string, info *hcommon.Info, err e
 		}
 	}
 	info.Nontrivial = okFetches >= 3 && failedFetches >= 1 && refused >= 1
-	return intern(g.App("mkCase", g.List(casTerms), g.List(blobTerms), g.List(ops), g.List(outs))), info, nil
+	return (g.App("mkCase", g.List(casTerms), g.List(blobTerms), g.List(ops), g.List(outs))), info, nil
 }
 
 // ---- cachingDirectoryFetcher -----------------------------------------------
@@ -1293,7 +1271,7 @@ func (b *baseFetcher) GetTreeChildDirectory(ctx context.Context, t, d digest.Dig
 }
 
 func idigestTerm(d jidigest) string {
-	return "(" + g.Str(d.I) + ", " + g.Str(d.H) + ", " + g.Z(d.S) + ")"
+	return "(" + g.Str(d.I) + ", " + hashTerm(d.H) + ", " + g.Z(d.S) + ")"
 }
 
 func executeCache(h history, info *hcommon.Info) (string, *hcommon.Info, error) {
@@ -1407,7 +1385,7 @@ func executeCache(h history, info *hcommon.Info) (string, *hcommon.Info, error) 
 		outs = append(outs, "("+res+", "+g.Bool(base.called)+")")
 	}
 	info.Nontrivial = hits > 0 && misses > h.MaxC
-	return intern(g.App("mkCacheCase", g.App("mkStore", g.List(dirTerms), g.List(rootTerms)), g.Bool(h.Fmt),
+	return (g.App("mkCacheCase", g.App("mkStore", g.List(dirTerms), g.List(rootTerms)), g.Bool(h.Fmt),
 		fmt.Sprint(h.MaxC), g.Z(h.MaxS), g.List(ops), g.List(outs))), info, nil
 }
 
